@@ -496,6 +496,23 @@ def run_case(W, stream, idx, seq, rng):
         sys.modules.pop(modname, None)
 
 
+class NotACoroutine(Exception):
+    pass
+
+
+def drive_coroutine(coro):
+    """Run a coroutine that never suspends to completion and return its value."""
+    import inspect
+    if not inspect.iscoroutine(coro):
+        raise NotACoroutine(f'calling an async def produced {type(coro).__name__}, not a coroutine')
+    try:
+        coro.send(None)
+    except StopIteration as stop:
+        return stop.value
+    coro.close()
+    raise NotACoroutine('the coroutine suspended although nothing in it awaits')
+
+
 def run_wraps_case(W, stream, idx, seq, rng):
     """The decorated callable is a functools.wraps closure around the annotated original (the everyday decorator
     idiom): pure pass-through (*args, **kwargs), or with parameters of its own.  Python binds the call to the CLOSURE's
@@ -509,9 +526,15 @@ def run_wraps_case(W, stream, idx, seq, rng):
     try:
         ns, log, result, exc_obj, raises, desc = build(sig, rng, modname)
         orig = ns['orig']
-        shape = rng.choice(('pure', 'own-kwonly', 'own-kwonly', 'own-kwonly-defaulted', 'own-leading-positional', 'own-both'))
+        shape = rng.choice(('pure', 'own-kwonly', 'own-kwonly', 'own-kwonly-defaulted', 'own-leading-positional', 'own-both',
+                            'async-adapter'))
         clog = []
-        if shape == 'pure':
+        if shape == 'async-adapter':       # the closure's kind differs from the original's: awaited, it is the same call
+            @functools.wraps(orig)
+            async def closure(*args, **kwargs):
+                clog.append(('run', None, None))
+                return orig(*args, **kwargs)
+        elif shape == 'pure':
             @functools.wraps(orig)
             def closure(*args, **kwargs):
                 clog.append(('run', None, None))
@@ -561,7 +584,10 @@ def run_wraps_case(W, stream, idx, seq, rng):
                 del log[:], clog[:]
                 got = raised = None
                 try:
-                    got = fn(*cargs, **ckwargs)
+                    if shape == 'async-adapter':
+                        got = drive_coroutine(fn(*cargs, **ckwargs))
+                    else:
+                        got = fn(*cargs, **ckwargs)
                 except (KeyboardInterrupt, SystemExit):
                     raise
                 except BaseException as e:   # noqa
